@@ -8,6 +8,13 @@
 //	C20.verify   real ReadLogEntries + IntegrityCheckVerifier on a file  ↔ scanLines + parseLine + verify
 //	C20.verifyp  same for JSON: the model receives the lines as parsed by the real JSONLogParser
 //
+// JSON (model AuditLog/Json.lean: encoding/json's encoder and decoder for decoded values, convertMapToBytes, hook, parser):
+//
+//	C20.produce json  real JSONFormatterHook.PostFormat on recorded formatter outputs ↔ jsonHook / produceJsonBytes
+//	C20.parse json    real JSONLogParser.ParseEntry                                    ↔ jsonParse (decodeTop, conv)
+//	C20.verify json   real reader + verifier                                           ↔ scanLines + jsonParse + verify
+//	C20.jenc          encoding/json's string encoder (what getBytes applies to a string) ↔ encStr
+//
 // and the full pipeline (real logrus std logger + AcraCryptoFormatter + hooks + AuditLogHandler with its
 // chain reset) is run by the generator (pipeline.go); its output is what all of the above are fed with.
 package c20
@@ -15,6 +22,7 @@ package c20
 import (
 	"bytes"
 	"encoding/hex"
+	"encoding/json"
 	"fmt"
 	"os"
 	"path/filepath"
@@ -138,6 +146,13 @@ func init() {
 	})
 	core.Register("C20.parse", func(a []string) string { return parseReal(a[0], core.UnHex(a[1])) })
 	core.Register("C20.verify", func(a []string) string { return verdict(a[0], core.UnHex(a[1]), core.UnHex(a[2])) })
+	core.Register("C20.jenc", func(a []string) string {
+		b, err := json.Marshal(string(core.UnHex(a[0])))
+		if err != nil {
+			return core.Err
+		}
+		return core.Hex(b)
+	})
 	core.Register("C20.verifyp", func(a []string) string { return verdict("json", core.UnHex(a[0]), core.UnHex(a[1])) })
 }
 
